@@ -122,12 +122,12 @@ let gmap_ops = [| "add_node"; "remove_node"; "add_edge"; "remove_edge"; "clear";
 let all_tags = [| "bool"; "err"; "panic"; "idx"; "unit"; "counts"; "row"; "wrow"; "erefs"; "nw"; "OUT-OF-FUEL"; "nat";
                   "notsorted"; "none"; "pair"; "eidxs"; "nodes"; "out"; "in"; "has"; "limit"; "some";
                   "nb"; "nbo"; "nbi"; "ed"; "edo"; "edi"; "gn"; "ge"; "el"; "nbu"; "exto"; "exti"; "elimit"; "oob";
-                  "walk"; "econn"; "missed"; "vac"; "free"; "seq"; "events"; "cycle"; "comp"; "cidx"; "scores"; "path"; "dist"; "pred"; "fw"; "fwp"; "mse"; "msn"; "bytes"; "dec"; "text"; "wire"; "robust"; "order"; "pos"; "atpos"; "selfloop"; "range"; "pairs"; "flow"; "dom"; "vhdr"; "nrefs"; "nbin"; "adj" |]
+                  "walk"; "econn"; "missed"; "vac"; "free"; "seq"; "events"; "cycle"; "comp"; "cidx"; "scores"; "path"; "dist"; "pred"; "fw"; "fwp"; "mse"; "msn"; "bytes"; "dec"; "text"; "wire"; "robust"; "order"; "pos"; "atpos"; "selfloop"; "range"; "pairs"; "flow"; "dom"; "vhdr"; "nrefs"; "nbin"; "adj"; "verdict" |]
 let view_ops = [| "node"; "out"; "in"; "neighbors_edges_mismatch"; "erefs"; "nmap"; "_6"; "_7"; "_8"; "reset";
                   "dfs"; "dfs_moveto"; "dfs_reset"; "dfspost"; "bfs"; "topo"; "topo_with_initials"; "dfsvisit"; "dfspost_moveto"; "dfspost_reset";
                   "connected_components"; "is_cyclic_undirected"; "toposort"; "toposort2"; "is_cyclic_directed"; "has_path";
                   "kosaraju"; "tarjan"; "bipartite"; "condensation";
-                  "dijkstra"; "astar"; "ksp"; "bellman_ford"; "find_negative_cycle"; "spfa"; "floyd_warshall"; "floyd_warshall_path"; "_38"; "_39"; "kruskal"; "prim"; "_42"; "_43"; "_44"; "_45"; "_46"; "_47"; "_48"; "_49"; "greedy_matching"; "maximum_matching"; "ford_fulkerson"; "simple_fast"; "articulation_points" |]
+                  "dijkstra"; "astar"; "ksp"; "bellman_ford"; "find_negative_cycle"; "spfa"; "floyd_warshall"; "floyd_warshall_path"; "_38"; "_39"; "kruskal"; "prim"; "_42"; "_43"; "_44"; "_45"; "_46"; "_47"; "_48"; "_49"; "greedy_matching"; "maximum_matching"; "ford_fulkerson"; "simple_fast"; "articulation_points"; "_55"; "_56"; "_57"; "_58"; "_59"; "maximal_cliques"; "dsatur"; "fas"; "tred"; "all_simple_paths"; "steiner"; "page_rank" |]
 let graph_ops = [| "add_node"; "try_add_node"; "add_edge"; "try_add_edge"; "update_edge"; "try_update_edge";
                    "remove_node"; "remove_edge"; "reverse"; "clear"; "clear_edges"; "retain_nodes"; "retain_edges";
                    "extend_with_edges"; "filter_map"; "into_edge_type"; "set_node_weight"; "set_edge_weight";
@@ -149,7 +149,7 @@ let () =
    | "C19" -> C19.run_file lines oc
    | "C01" -> run_generic graph_ops all_tags GraphIO.run_case lines oc
    | "C02" -> run_generic stable_ops all_tags StableIO.run_case lines oc
-   | "C08" | "C09" | "C10" | "C11" | "C12" | "C15" | "C16" | "C07" -> run_generic view_ops all_tags AlgoIO.run_case lines oc
+   | "C08" | "C09" | "C10" | "C11" | "C12" | "C15" | "C16" | "C07" | "C20" -> run_generic view_ops all_tags AlgoIO.run_case lines oc
    | "C17g" -> run_generic (Array.append (pad_to graph_ops 40) serde_tail) all_tags SerdeIO.run_case_g lines oc
    | "C17s" -> run_generic (Array.append (pad_to stable_ops 40) serde_tail) all_tags SerdeIO.run_case_s lines oc
    | "C18g6" -> run_generic [| "g6"; "g6d" |] all_tags Graph6M.run_case lines oc
